@@ -31,7 +31,6 @@ def config (j : Json) : R (Config Float) := do
 
 def jerr : Err → Json
   | .missingKey k => Json.mkObj [("e", "ValueError"), ("k", Json.str k)]
-  | .outOfBounds => Json.mkObj [("e", "OutOfBounds")]
   | .shape => Json.mkObj [("e", "Shape")]
 
 /-- op `C10.kin_scaling`: config + "calls": [null | [[key, bits]…], …] → {"res": [{"v": [bits…]} | {"e": …}, …]} -/
